@@ -1,7 +1,7 @@
 (* C03 - exactly one wrapper per discovered command, invoking exactly its Rust name.
    Only statements, [exact], examples and [Print Assumptions] live here.
-   Model: Model/C03Discover.v (faithful, defects included). Specification: Spec/C03Spec.v
-   (path components, never substrings). Proofs: Proofs/C03Proofs.v, Proofs/DiscoverSpike.v. *)
+   Model: Model/C03Discover.v (faithful to the code after the repairs of C03-1 and C03-2).
+   Specification: Spec/C03Spec.v (path components, never substrings). Proofs: Proofs/C03Proofs.v. *)
 From Coq Require Import String Ascii.
 From Coq Require Import List Arith Bool Permutation.
 Require Import TT.Model.Str TT.Model.Pipeline TT.Model.C03Discover TT.Spec.C03Spec.
@@ -9,23 +9,22 @@ Require Import TT.Proofs.C03Proofs.
 Import ListNotations.
 Local Open Scope list_scope.
 
-(* For every well-formed layout, every spelling of the project path outside the recorded
-   class C03-1 and when no accepted file is outside UTF-8 (class C03-2): the analysis
-   succeeds, and under EVERY iteration order of the AST cache (files' ranges over all
+(* For every well-formed layout and EVERY spelling of the project path (no recorded class is
+   left as a premise): under EVERY iteration order of the AST cache (files' ranges over all
    permutations of the cached files) the wrappers of commands.ts, read as
    (invoke name, Promise type), are a permutation of the specification: the annotated
-   top-level functions of parsed .rs files without a target/.git directory component. *)
+   top-level functions of parsed .rs files without a target/.git directory component below
+   the project path. Files that cannot be read or parsed contribute nothing and hide nothing. *)
 Theorem C03_bijection : forall (root : str) (l : layout),
-  layout_ok l = true -> kf_root root = false -> kf_notutf8 root l = false ->
-  exists cached, cache root l = Done cached /\
-    forall files', Permutation files' cached ->
-      Permutation (map wobs (emit (analyze_files files'))) (map spec_obs (annotated_spec l)).
+  layout_ok l = true ->
+  forall files', Permutation files' (cache root l) ->
+    Permutation (map wobs (emit (analyze_files files'))) (map spec_obs (annotated_spec l)).
 Proof. exact bijection. Qed.
 
 (* the run in walk order (what the extracted entry point computes) gives the list itself *)
 Theorem C03_walk_order : forall (root : str) (l : layout),
-  layout_ok l = true -> kf_root root = false -> kf_notutf8 root l = false ->
-  exists cs, analyze root l = Done cs /\ map wobs (emit cs) = map spec_obs (annotated_spec l).
+  layout_ok l = true ->
+  map wobs (emit (analyze root l)) = map spec_obs (annotated_spec l).
 Proof. exact bijection_walk_order. Qed.
 
 (* what the specification contains, read declaratively: exactly the functions f that stand
@@ -37,49 +36,45 @@ Theorem C03_spec_membership : forall (l : layout) (p : list str) (f : fn_def),
   exists items, In (p, Parsed items) (walk l) /\ spec_accept p = true /\ In (RFn f) items /\ annotated f = true.
 Proof. exact in_annotated_spec. Qed.
 
-(* the one non-trivial step: the substring test on the full path string equals the
-   component test, for slash-free components and a root outside class C03-1 *)
+(* the acceptance test of the code (Path::extension equal to rs; no Component::Normal equal
+   to target or .git among the directory components below the project path) is the test of
+   the specification (name stem.rs with a non-empty stem; no excluded directory component),
+   for every root and every component list - the substring argument that the unrepaired code
+   needed (and that failed for a root below target or .git) is gone *)
 Theorem C03_accepted_by_components : forall (root : str) (comps : list str),
-  kf_root root = false -> Forall DiscoverSpike.slashfree comps ->
   accepted root comps = spec_accept comps.
 Proof. exact accepted_spec_accept. Qed.
 
-(* a file that fails to parse removes exactly its own wrappers: for any files before and
-   after it in walk order, the run with the file parsed yields a ++ own ++ b and the run
-   with the same file unparsable yields a ++ b (and both fail together otherwise) *)
-Theorem C03_unparsable_isolated : forall (root : str) pre post (p : list str) (items : list ritem),
-  match analyze_list root pre, analyze_list root post with
-  | Done a, Done b =>
-      analyze_list root (pre ++ (p, Parsed items) :: post) = Done (a ++ own_cmds root p items ++ b) /\
-      analyze_list root (pre ++ (p, Unparsable) :: post) = Done (a ++ b)
-  | _, _ =>
-      analyze_list root (pre ++ (p, Parsed items) :: post) = Failed /\
-      analyze_list root (pre ++ (p, Unparsable) :: post) = Failed
-  end.
-Proof. exact unparsable_isolated. Qed.
+(* a file that fails to parse, or that cannot be read as UTF-8, removes exactly its own
+   wrappers: for any files before and after it in walk order, the run with the file parsed
+   yields a ++ own ++ b and the run with the same file skipped yields a ++ b *)
+Theorem C03_unparsable_isolated : forall (root : str) pre post (p : list str) (items : list ritem) (c : content),
+  skipped c = true ->
+  analyze_list root (pre ++ (p, Parsed items) :: post)
+    = analyze_list root pre ++ own_cmds root p items ++ analyze_list root post /\
+  analyze_list root (pre ++ (p, c) :: post) = analyze_list root pre ++ analyze_list root post.
+Proof. exact skipped_isolated. Qed.
 
-Theorem C03_unparsable_isolated_layout : forall (root : str) (l l' : layout) pre post (p : list str) items,
+Theorem C03_unparsable_isolated_layout : forall (root : str) (l l' : layout) pre post (p : list str) items (c : content),
+  skipped c = true ->
   walk l = pre ++ (p, Parsed items) :: post ->
-  walk l' = pre ++ (p, Unparsable) :: post ->
-  match analyze root l with
-  | Done cs => exists a b, cs = a ++ own_cmds root p items ++ b /\ analyze root l' = Done (a ++ b)
-  | Failed => analyze root l' = Failed
-  end.
-Proof. exact unparsable_isolated_layout. Qed.
+  walk l' = pre ++ (p, c) :: post ->
+  exists a b, analyze root l = a ++ own_cmds root p items ++ b /\ analyze root l' = a ++ b.
+Proof. exact skipped_isolated_layout. Qed.
 
-(* C03-1: a root whose own path contains /target/ loses every command *)
-Theorem C03_root_path_refuted :
-  layout_ok w_layout1 = true /\ kf_root w_root = true /\ kf_notutf8 w_root w_layout1 = false /\
-  analyze w_root w_layout1 = Done [] /\
+(* former C03-1 witness (root /tmp/x/target/proj/src): the command now has its wrapper *)
+Theorem C03_root_path_fixed :
+  layout_ok w_layout1 = true /\
+  map wobs (emit (analyze w_root w_layout1)) = [(L "hello", L "Promise<string>")] /\
   map spec_obs (annotated_spec w_layout1) = [(L "hello", L "Promise<string>")].
-Proof. exact root_refuted. Qed.
+Proof. exact root_fixed. Qed.
 
-(* C03-2: one accepted file that is not UTF-8 makes the whole analysis fail *)
-Theorem C03_notutf8_refuted :
-  layout_ok w_layout2 = true /\ kf_root (L "src") = false /\ kf_notutf8 (L "src") w_layout2 = true /\
-  analyze (L "src") w_layout2 = Failed /\
+(* former C03-2 witness (fixtures/latin1.rs is not UTF-8): the other file keeps its wrapper *)
+Theorem C03_notutf8_fixed :
+  layout_ok w_layout2 = true /\
+  map wobs (emit (analyze (L "src") w_layout2)) = [(L "hello", L "Promise<string>")] /\
   map spec_obs (annotated_spec w_layout2) = [(L "hello", L "Promise<string>")].
-Proof. exact notutf8_refuted. Qed.
+Proof. exact notutf8_fixed. Qed.
 
 (* the run-time oracle decides exactly: every exported function calls invoke once with a
    string literal, and the (invoke name, return type) pairs are a permutation of the expected ones *)
@@ -102,22 +97,25 @@ Definition ex_layout : layout :=
     NDir (L "sub") [NDir (L ".git") [NFile (L "g.rs") (Parsed [RFn (ex_fn "decoy2" [[L "command"]])])];
                     NDir (L "y.rs") [NFile (L "b.rs") (Parsed [RFn (ex_fn "b" [[L "command"]; [L "doc"]])])];
                     NFile (L "broken.rs") Unparsable;
+                    NFile (L "latin1.rs") NotUtf8;
                     NFile (L "notes.txt") NotUtf8];
     NDir (L "targets") [NFile (L "c.rs") (Parsed [RFn (ex_fn "a" [[L "tauri"; L "command"]])])] ].
 
-Example C03_ex_premises :
-  layout_ok ex_layout = true /\ kf_root (L "./proj/src/") = false /\ kf_notutf8 (L "./proj/src/") ex_layout = false.
-Proof. vm_compute. repeat split; reflexivity. Qed.
+Example C03_ex_premises : layout_ok ex_layout = true.
+Proof. vm_compute. reflexivity. Qed.
+(* the same result for a root below target/ and .git/ *)
 Example C03_ex_result :
-  match analyze (L "./proj/src/") ex_layout with
-  | Done cs => map wobs (emit cs)
-  | Failed => []
-  end = [(L "a", L "Promise<types.User>"); (L "b", L "Promise<types.User>"); (L "a", L "Promise<types.User>")].
+  map (fun r => map wobs (emit (analyze (L r) ex_layout))) ["./proj/src/"; "/w/target/p/.git/src"]%string = repeat [(L "a", L "Promise<types.User>"); (L "b", L "Promise<types.User>"); (L "a", L "Promise<types.User>")] 2.
 Proof. vm_compute. reflexivity. Qed.
 Example C03_ex_isolated :
   walk [NFile (L "a.rs") (Parsed [RFn (ex_fn "a" [[L "command"]])]); NFile (L "b.rs") (Parsed [RFn (ex_fn "b" [[L "command"]])])]
   = [] ++ ([L "a.rs"], Parsed [RFn (ex_fn "a" [[L "command"]])]) :: [([L "b.rs"], Parsed [RFn (ex_fn "b" [[L "command"]])])].
 Proof. reflexivity. Qed.
+Example C03_ex_isolated_unreadable :
+  skipped NotUtf8 = true /\
+  walk [NFile (L "a.rs") NotUtf8; NFile (L "b.rs") (Parsed [RFn (ex_fn "b" [[L "command"]])])]
+  = [] ++ ([L "a.rs"], NotUtf8) :: [([L "b.rs"], Parsed [RFn (ex_fn "b" [[L "command"]])])].
+Proof. split; reflexivity. Qed.
 (* the template text of Model/Pipeline.v for these commands, lexed and parsed by the
    specification parser, reads back as the wrapper records of the abstract model *)
 Example C03_ex_tokens_read_back :
@@ -133,6 +131,6 @@ Print Assumptions C03_spec_membership.
 Print Assumptions C03_accepted_by_components.
 Print Assumptions C03_unparsable_isolated.
 Print Assumptions C03_unparsable_isolated_layout.
-Print Assumptions C03_root_path_refuted.
-Print Assumptions C03_notutf8_refuted.
+Print Assumptions C03_root_path_fixed.
+Print Assumptions C03_notutf8_fixed.
 Print Assumptions C03_oracle_exact.
